@@ -167,6 +167,22 @@ def run(tier, seed):
                 continue
             traces.append(outcome(p, res, solver))
             meta.append(dict(check='solve', solver=str(solver), mip=mip, classes=''.join(sorted({r['cls'] for r in p['rows']})), prog=k, dup=p['dup']))
+        if mip:
+            # make_soft_problem: the relaxation (flags dropped, bounds kept); the row templates are interval rows, so the relaxed polytope is integral
+            for solver in (None, 'SCIPY', 'CLARABEL'):
+                op = build_op(p)
+                chk.cnt['eval_optimize_calls'] += 1
+                chk.cnt['eval_soft_calls'] += 1
+                try:
+                    with quiet():
+                        res = op.optimize(solver=solver, make_soft_problem=True) if solver else op.optimize(make_soft_problem=True)
+                except Exception as e:
+                    chk.cnt['optimize_raised_' + type(e).__name__] += 1
+                    continue
+                t = outcome(p, res, solver)
+                t['soft'] = True
+                traces.append(t)
+                meta.append(dict(check='solve_soft', solver=str(solver), mip=mip, classes=''.join(sorted({r['cls'] for r in p['rows']})), prog=k, dup=p['dup']))
     # split problems: value = sum, x = concatenation (programs paired in order)
     lp = [p for p in progs if not any(p['bools']) and p['n'] <= 3 and brute(p) is not None]
     for a, b in zip(lp[0::2], lp[1::2]):
@@ -210,6 +226,10 @@ def run(tier, seed):
             bad['x'] = [0, K]
             bad['v'] = K
         traces.append(bad)
+    # the relaxation is another program: the MIP optimum offered as "soft" response is sub-optimal, the relaxed optimum offered as MIP response breaks the flag
+    p1 = dict(n=1, c=[-1], l=[0], u=[2], rows=[], bools=[True])
+    traces.append(dict(p=p1, K=K, tol=2, vtol=10, kind='solution', x=[K], v=K, soft=True))
+    traces.append(dict(p=p1, K=K, tol=2, vtol=10, kind='solution', x=[2 * K], v=2 * K, soft=False))
     verdicts, st = REC.validate_traces(traces, module='EAOSolve')
     chk.add_tlc(st)
     chk.traces += n_real
